@@ -595,7 +595,11 @@ class DAG(nx.DiGraph):
         >>> student.is_dconnected('grades', 'sat')
         True
         """
-        if end in self.active_trail_nodes(start, observed)[start]:
+        # `end` may be a latent variable: ask for the latent nodes as well.
+        if (
+            end
+            in self.active_trail_nodes(start, observed, include_latents=True)[start]
+        ):
             return True
         else:
             return False
